@@ -168,8 +168,10 @@ def coq_stage(prop, tier):
         if changed:
             info['cmds'].append('regenerated Gen/: ' + ', '.join(changed))
     except Exception as e:
-        info['ok'] = False
-        info['problems'].append('translator (Gen/*.v from /repo) failed: %r' % e)
+        # the previously generated file stays in place; only the properties whose theorems are about the tables are affected
+        if prop in ('C03', 'C20'):
+            info['ok'] = False
+            info['problems'].append('translator (Gen/*.v from /repo) failed: %r' % e)
     names = build.theorem_names(prop)
     if not names:
         info['ok'] = False
